@@ -292,11 +292,18 @@ Proof.
   - right. exists y. split; [right; exact Hy|exact E].
 Qed.
 
+Lemma dedupe_first_in x l : forall seen, In x (dedupe_first l seen) -> In x l.
+Proof.
+  induction l as [|y l IH]; intros seen; cbn [dedupe_first]; [intros []|].
+  destruct (mem_str y seen); [intros H; right; eapply IH; exact H|].
+  intros [<-|H]; [left; reflexivity|right; eapply IH; exact H].
+Qed.
+
 Lemma sref_disc_schema disc (refs : list (string * string)) s :
   sref (JObj [("type", JStr "object");
               ("discriminator", JObj [("propertyName", JStr disc);
                                       ("mapping", JObj (fold_left (fun acc kr => jobj_set (fst kr) (JStr (snd kr)) acc) refs []))]);
-              ("oneOf", JArr (map (fun kr : string * string => JObj [("$ref", JStr (snd kr))]) refs))]) s ->
+              ("oneOf", JArr (map (fun r0 : string => JObj [("$ref", JStr r0)]) (dedupe_first (map snd refs) [])))]) s ->
   exists kr, In kr refs /\ s = snd kr.
 Proof.
   assert (Hmap : forall k v, In (k, v) (fold_left (fun acc (kr : string * string) => jobj_set (fst kr) (JStr (snd kr)) acc) refs []) ->
@@ -321,7 +328,8 @@ Proof.
     injection E as <-. destruct Hmp as [E|[E|[]]]; [discriminate|]. injection E as <-.
     destruct (Hmap _ _ Hs) as [kr [Hkr E]]. injection E as ->. eauto.
   - apply sref_cons in H. destruct H as [[E _]|[[_ H]|[[E _]|[[E _]|H]]]]; try discriminate; [|exfalso; eapply sref_nil; eauto].
-    inversion H as [| | |xs x s0 Hin Hx|]; subst. apply in_map_iff in Hin. destruct Hin as [kr [<- Hkr]].
+    inversion H as [| | |xs x s0 Hin Hx|]; subst. apply in_map_iff in Hin. destruct Hin as [r0 [<- Hr0]].
+    apply dedupe_first_in in Hr0. apply in_map_iff in Hr0. destruct Hr0 as [kr [<- Hkr]].
     apply sref_cons in Hx. destruct Hx as [[_ E]|[[_ Hx]|[[E _]|[[E _]|Hx]]]]; try discriminate.
     + injection E as <-. eauto.
     + inversion Hx.
@@ -472,11 +480,11 @@ Section Refs.
     - (* RSet *) unfold unsupported; intros H; discriminate H.
     - (* RDisc *)
       destruct (hash32 env f [] (RDisc ss disc mapping smapping)) as [uh|e]; cbn [bind]; [|discriminate].
-      destruct (smap _ c smapping) as [[refs cr]|e] eqn:E; cbn [bind fst snd]; [|discriminate].
+      destruct (smap _ c (variant_labels smapping)) as [[refs cr]|e] eqn:E; cbn [bind fst snd]; [|discriminate].
       assert (Hsm : WF cr /\ Forall (fun kr : string * string => Pc cr (snd kr)) refs /\ Rr c cr).
       { eapply (smap_refs _ (fun c0 (kr : string * string) => Pc c0 (snd kr))); [| |exact Hc|exact E].
         - intros c0 c0' y HR [n [En Hn]]. exists n. split; [exact En|eapply okn_R; eauto].
-        - intros [key vr] c0 y c0' _ Hc0. cbn [fst snd].
+        - intros [[key vr] label] c0 y c0' _ Hc0. cbn [fst snd].
           assert (Ens : forall name target c1,
                      (assoc name env = Some target \/ is_synthetic name) ->
                      (if has_definition c0 name || is_in_progress c0 name then Ok c0
@@ -505,7 +513,7 @@ Section Refs.
             split; [exact H1|split; [|exact H3]]. cbn [snd]. exists name. split; [reflexivity|exact H2].
           + match goal with |- (do c1 <- ?e; _) = _ -> _ => destruct e as [c1|e'] eqn:Ee end; cbn [bind]; [|discriminate].
             intros [= <- <-].
-            assert (Sy : is_synthetic (synthetic_ref_name disc key uh)) by (repeat eexists).
+            assert (Sy : is_synthetic (synthetic_ref_name disc label uh)) by (repeat eexists).
             destruct (Ens _ _ _ (or_intror Sy) Ee) as [H1 [H2 H3]].
             split; [exact H1|split; [|exact H3]]. cbn [snd]. eexists. split; [reflexivity|exact H2]. }
       destruct Hsm as [Hcr [Hrefs _]].
